@@ -8,7 +8,7 @@ D  Header.tla: Sem(L) (the format's assignment of substreams, CRCs and kinds to 
 R  every layout TLC emits (sampled in quick) is written by the independent reference writer with real coders and further
    physical choices drawn from the seed (coder chain per folder, packed CRCs, packpos > 0, kDummy padding, EmptyFile vector,
    partially defined time/attribute vectors, non-minimal NUMBERs, raw / LZMA / AES header) and read by py7zr.
-T  TraceHeader: listing and extractall(factory) compared with Sem(L): names, kinds, folder, CRC known, sizes, bytes,
+T  TraceHeader: listing, extractall(factory) and extractall(directory) compared with Sem(L): names, kinds, folder, CRC known, sizes, bytes,
    timestamps and attributes.  The third-party fixtures are compared member by member with the reference reader.
 """
 import hashlib
@@ -104,6 +104,27 @@ def read_case(case):
                                        "name": f.filename == want.get("name"), "size": f.uncompressed == (len(exp) if exp else 0),
                                        "bytes": (data == exp) if exp is not None else (data in (None, b"")),
                                        "meta": (mt == want.get("mtime")) and (wat == "default" or at == wat) and (ref[i]["attrib"] == at)})
+            # the same archive into a directory: files with their bytes and (where defined) modification times, directories present
+            import shutil
+            import tempfile
+            od = tempfile.mkdtemp(prefix="c06-", dir="/dev/shm" if os.path.isdir("/dev/shm") else None)
+            try:
+                z.reset()
+                z.extractall(path=od)
+                for i, f in enumerate(z.files):
+                    want = lay["files"][i] if i < len(lay["files"]) else {}
+                    p = os.path.join(od, f.filename)
+                    m = obs["members"][i]
+                    if m["kind"] == "dir":
+                        m["bytes"] = m["bytes"] and os.path.isdir(p)
+                    else:
+                        exp = datas[i] or b""
+                        m["bytes"] = m["bytes"] and os.path.isfile(p) and open(p, "rb").read() == exp
+                        if want.get("mtime") is not None and os.path.isfile(p):
+                            secs = (want["mtime"] - 116444736000000000) / 10 ** 7
+                            m["meta"] = m["meta"] and abs(os.path.getmtime(p) - secs) < 2e-6 * max(1.0, abs(secs)) + 1e-3
+            finally:
+                shutil.rmtree(od, ignore_errors=True)
     except Exception as e:  # noqa
         obs["ok"] = False
         obs["exc"] = type(e).__name__ + ":" + str(e)[:100]
